@@ -67,6 +67,8 @@ func main() {
 		err = core.RunWire(w, *seed, *tier, *replay)
 	case "pubsub":
 		err = core.RunPubSub(w, *seed, *tier, *replay)
+	case "raft":
+		err = core.RunRaft(w, *seed, *tier, *replay)
 	case "gen-facts":
 		err = core.GenFacts(*leanDir)
 	default:
